@@ -231,6 +231,11 @@ func c16MakeOp(c *core.Case) *c16Op {
 		if !square && r.P(0.25) && base.H <= hhi-2 && base.V <= vhi-2 {
 			ids = cornerFirst(r, base, r.Range(0, 2), r.Range(1, 2))
 		}
+		if !square && r.P(0.1) && hlo == 0 && hhi == 35 && vlo == 0 && vhi == 35 {
+			P, ch := truncAliasPair(r) // f = 0 voxel and a finer below-ground voxel on the same footprint (not nested)
+			ids = []ref.ID{P, ch}
+			base = P
+		}
 		for k := r.Intn(5); k > 0; k-- {
 			switch r.Intn(4) {
 			case 0:
@@ -558,11 +563,39 @@ func c16MakeOp(c *core.Case) *c16Op {
 			c.KI(q)
 		}
 		H, V := clampI(qz+r.Range(-3, 2), 0, 35), clampI(vz+r.Range(-3, 2), 0, 35)
+		bitForm := r.P(0.4)
+		if bitForm {
+			// bit-form elements: every element carries its own height range; elements share the vertical index (and often
+			// the tile) but differ in the range, so each one's altitudes must come from its own range whatever the order
+			V = r.Range(18, 23)
+			H = clampI(qz+r.Range(-2, 1), 0, 35)
+			if k == 19 {
+				H = V
+				qz = V - r.Range(0, 1)
+				q0 = r.I64n(pow2(2 * qz))
+			}
+			vz = r.Range(4, 8)
+			vi := r.I64n(pow2(vz))
+			ranges := [][2]float64{{1024, -1024}, {512, 0}, {2048, -2048}, {1000, -1000}, {0, -512}}
+			objs = objs[:0]
+			for n := 2 + r.Intn(4); n > 0; n-- {
+				q := q0
+				if r.P(0.4) {
+					q = clampI(q0+r.Range(-1, 1), 0, pow2(2*qz)-1)
+				}
+				rg := ranges[r.Intn(len(ranges))]
+				objs = append(objs, object.NewQuadkeyAndVerticalID(qz, q, vz, clampI(vi+r.Range(-1, 1)*int64(r.Intn(2)), 0, pow2(vz)-1), rg[0], rg[1]))
+				c.KI(q, int64(rg[0]), int64(rg[1]))
+			}
+			c.Tag("bit-form-mixed-height-ranges")
+		}
 		c.KI(qz, vz, H, V)
 		name := "ConvertQuadkeysAndVerticalIDsToExtendedSpatialIDs"
 		if k == 19 {
 			name = "ConvertQuadkeysAndVerticalIDsToSpatialIDs"
-			H = clampI(qz+r.Range(-3, 1), 0, 35)
+			if !bitForm {
+				H = clampI(qz+r.Range(-3, 1), 0, 35)
+			}
 		}
 		return &c16Op{name: name, sizes: []int{len(objs)}, dedup: k == 18, call: func(idx [][]int) (c16Res, string) {
 			in := pick(objs, idx[0])
